@@ -75,13 +75,26 @@ NMV_OP("simd") {
 // ------------------------------------------------------------------ common helpers of the typed parts
 template <typename T> struct tag_t { using type = T; };
 
-template <typename F>
-static void with_dtype(const J& A, F&& f) {
+template <bool INTS = false, typename F>
+static void with_dtype(const J& A, W& w, F&& f) {
     const std::string& dt = A["dt"].as_str();
     if (dt == "f32") return f(tag_t<float>{});
     if (dt == "f64") return f(tag_t<double>{});
+    if constexpr (INTS) {
+        if (dt == "i32") return f(tag_t<int32_t>{});
+        if (dt == "i64") return f(tag_t<int64_t>{});
+    } else if (dt == "i32" || dt == "i64") { w.key("unsupported").str("integer elements do not compile for this form"); return; }
     throw std::runtime_error("dt " + dt);
 }
+// integer element types are instantiated for row-major operands only (compile time)
+template <typename T> constexpr int layouts_v = std::is_integral_v<T> ? 1 : 3;
+// which integer combinations compile (found by trying): int64 multiply only with the vector extensions and SIMDe;
+// integer matmul needs an integer fmadd: int32 with x86_SSE and the vector extensions, int64 with the vector extensions only
+template <typename T> constexpr bool mul_ok_v = !std::is_same_v<T, int64_t> || (C12_CTX >= 2);
+template <typename T> constexpr bool matmul_ok_v =
+    std::is_same_v<T, double> ? (C12_CTX != 5) :
+    std::is_same_v<T, int32_t> ? (C12_CTX == 0 || (C12_CTX >= 2 && C12_CTX <= 4)) :
+    std::is_same_v<T, int64_t> ? (C12_CTX >= 2 && C12_CTX <= 4) : true;
 
 template <typename Arr, typename T>
 static void fill_logical(Arr& arr, const std::vector<size_t>& shape, const std::vector<T>& data) {
@@ -95,7 +108,8 @@ static void fill_logical(Arr& arr, const std::vector<size_t>& shape, const std::
 template <typename T, int LAYOUTS = 3, typename F>
 static void with_arr(const J& o, W& w, F&& f) {
     auto shape = o["shape"].ivec<size_t>();
-    auto data = o["data"].dvec<T>();
+    std::vector<T> data;
+    if constexpr (std::is_integral_v<T>) data = o["data"].ivec<T>(); else data = o["data"].dvec<T>();
     const std::string& layout = o["layout"].as_str();
     if (layout == "col") {
         if constexpr (LAYOUTS & 2) { dyn_col_t<T> a; fill_logical(a, shape, data); f(a); }
@@ -137,7 +151,7 @@ static void both(W& w, Call&& call) {
 
 #if C12_SUB == 0
 NMV_OP("simd:" C12_CTX_NAME ":unaryA") {
-    with_dtype(A, [&](auto tag) {
+    with_dtype(A, w, [&](auto tag) {
         using T = typename decltype(tag)::type;
         with_arr<T>(A["a"], w, [&](const auto& a) {
             const std::string& f = A["f"].as_str();
@@ -154,7 +168,7 @@ NMV_OP("simd:" C12_CTX_NAME ":unaryA") {
 }
 #elif C12_SUB == 1
 NMV_OP("simd:" C12_CTX_NAME ":unaryB") {
-    with_dtype(A, [&](auto tag) {
+    with_dtype(A, w, [&](auto tag) {
         using T = typename decltype(tag)::type;
         with_arr<T>(A["a"], w, [&](const auto& a) {
             const std::string& f = A["f"].as_str();
@@ -181,15 +195,21 @@ NMV_OP("simd:" C12_CTX_NAME ":unaryB") {
 
 #if C12_SUB == 2
 NMV_OP("simd:" C12_CTX_NAME ":binary") {
-    with_dtype(A, [&](auto tag) {
+    with_dtype<true>(A, w, [&](auto tag) {
         using T = typename decltype(tag)::type;
-        with_arr<T>(A["a"], w, [&](const auto& a) {
-            with_arr<T>(A["b"], w, [&](const auto& b) {
+        with_arr<T, layouts_v<T>>(A["a"], w, [&](const auto& a) {
+            with_arr<T, layouts_v<T>>(A["b"], w, [&](const auto& b) {
                 const std::string& f = A["f"].as_str();
                 if (f == "add") return both(w, [&](const auto& c) { return na::add(a, b, c); });
                 if (f == "subtract") return both(w, [&](const auto& c) { return na::subtract(a, b, c); });
-                if (f == "multiply") return both(w, [&](const auto& c) { return na::multiply(a, b, c); });
-                if (f == "divide") return both(w, [&](const auto& c) { return na::divide(a, b, c); });
+                if (f == "multiply") {
+                    if constexpr (mul_ok_v<T>) return both(w, [&](const auto& c) { return na::multiply(a, b, c); });
+                    else { w.key("unsupported").str("integer multiply does not compile for this context"); return; }
+                }
+                if (f == "divide") {
+                    if constexpr (!std::is_integral_v<T>) return both(w, [&](const auto& c) { return na::divide(a, b, c); });
+                    else { w.key("unsupported").str("integer divide not instantiated"); return; }
+                }
                 throw std::runtime_error("unknown f " + f);
             });
         });
@@ -239,16 +259,18 @@ template <typename T, bool FULL, typename F>
 static void with_initial(const J& A, W& w, F&& f) {
     const J& in = A["initial"];
     if (in.is_null()) return f(nm::None);
-    if constexpr (FULL) return f((T)in.as_dbl());
+    if constexpr (FULL && !std::is_integral_v<T>) return f((T)in.as_dbl());
     else w.key("unsupported").str("initial not instantiated for this axis/layout");
 }
 NMV_OP("simd:" C12_CTX_NAME ":reduce_" C12_RED_NAME) {
-    with_dtype(A, [&](auto tag) {
+    with_dtype<true>(A, w, [&](auto tag) {
         using T = typename decltype(tag)::type;
-        with_arr<T>(A["a"], w, [&](const auto& a) {
+        if constexpr (C12_SUB == 4 && !mul_ok_v<T>) { w.key("unsupported").str("integer multiply does not compile for this context"); return; }
+        else
+        with_arr<T, layouts_v<T>>(A["a"], w, [&](const auto& a) {
             with_axis(A, w, [&](const auto& axis) {
                 constexpr bool LIST = !nm::is_none_v<meta::remove_cvref_t<decltype(axis)>> && !std::is_same_v<meta::remove_cvref_t<decltype(axis)>, int>;
-                constexpr bool FULL = !LIST;
+                constexpr bool FULL = !LIST && !std::is_integral_v<T>;   // integers: keepdims False / no initial only
                 with_keepdims<FULL>(A, w, [&](auto keepdims) {
                     with_initial<T, FULL>(A, w, [&](auto initial) {
                         both(w, [&](const auto& c) { return C12_RED_FN.reduce(a, axis, nm::None, initial, keepdims, c); });
@@ -263,17 +285,20 @@ NMV_OP("simd:" C12_CTX_NAME ":reduce_" C12_RED_NAME) {
 #if C12_SUB == 6
 // layouts instantiated: (row,row), (col,row), (row,col)
 NMV_OP("simd:" C12_CTX_NAME ":outer") {
-    with_dtype(A, [&](auto tag) {
+    with_dtype<true>(A, w, [&](auto tag) {
         using T = typename decltype(tag)::type;
-        with_arr<T>(A["a"], w, [&](const auto& a) {
-            with_arr<T>(A["b"], w, [&](const auto& b) {
+        with_arr<T, layouts_v<T>>(A["a"], w, [&](const auto& a) {
+            with_arr<T, layouts_v<T>>(A["b"], w, [&](const auto& b) {
                 if constexpr (is_col_v<meta::remove_cvref_t<decltype(a)>> && is_col_v<meta::remove_cvref_t<decltype(b)>>) {
                     w.key("unsupported").str("layout pair not instantiated");
                 } else {
                     const std::string& f = A["f"].as_str();
                     if (f == "add") return both(w, [&](const auto& c) { return na::add.outer(a, b, nm::None, c); });
                     if (f == "subtract") return both(w, [&](const auto& c) { return na::subtract.outer(a, b, nm::None, c); });
-                    if (f == "multiply") return both(w, [&](const auto& c) { return na::multiply.outer(a, b, nm::None, c); });
+                    if (f == "multiply") {
+                        if constexpr (mul_ok_v<T>) return both(w, [&](const auto& c) { return na::multiply.outer(a, b, nm::None, c); });
+                        else { w.key("unsupported").str("integer multiply does not compile for this context"); return; }
+                    }
                     throw std::runtime_error("unknown f " + f);
                 }
             });
@@ -286,12 +311,12 @@ NMV_OP("simd:" C12_CTX_NAME ":outer") {
 #if C12_SUB == 7
 #include "nmtools/array/array/matmul.hpp"
 NMV_OP("simd:" C12_CTX_NAME ":matmul") {
-    with_dtype(A, [&](auto tag) {
+    with_dtype<true>(A, w, [&](auto tag) {
         using T = typename decltype(tag)::type;
         // simde_avx512 fmadd<double> calls simde_mm512_fmadd_ps: compile error (TODO in tests/simde/avx512/matmul.cpp) -> unsupported
-        if constexpr (C12_CTX == 5 && std::is_same_v<T, double>) { w.key("unsupported").str("simde_AVX512 matmul f64 does not compile"); }
+        if constexpr (!matmul_ok_v<T>) { w.key("unsupported").str("matmul does not compile for this context and element type"); }
         else {
-            with_arr<T>(A["a"], w, [&](const auto& a) {
+            with_arr<T, layouts_v<T>>(A["a"], w, [&](const auto& a) {
                 with_arr<T, 2>(A["b"], w, [&](const auto& b) {
                     both(w, [&](const auto& c) { return na::matmul(a, b, c); });
                 });
